@@ -16,6 +16,8 @@ def generate(rng, tier):
     cases = []
     for i in range(n):
         win = ["grid", "between", "outside", "lo_only", "hi_only", "hi_grid", "none", "near", "near"][i % 9]
+        if i % 6 == 5:
+            win = ["between", "grid", "lo_only", "hi_only"][(i // 6) % 4]      # unsorted abscissae: the window must cut somewhere
         c = F.gen_ft_case(rng, tier, lorch=(i % 3 == 0), channel=2, win=win, unsorted=(i % 6 == 5),
                           omitted=(i % 7 == 3 and win in ("grid", "lo_only", "near")))
         if c["omitted"]:      # keep Qmin > 0 and the r grid away from the singular points of the closed form
